@@ -57,7 +57,10 @@ impl AR {
     /// "data" to create subsequent forecasts.
     pub fn predict(&self, data: &[f64], n: usize) -> Vec<f64> {
         let forecasts = vec![0.; n];
-        let mut d: Vec<f64> = data[data.len() - self.coeffs.len()..].to_vec();
+        let mut d: Vec<f64> = data[data.len() - self.coeffs.len()..]
+            .iter()
+            .map(|x| x - self.intercept)
+            .collect();
         d.extend(forecasts);
         for i in self.coeffs.len()..d.len() {
             d[i] = self.predict_one(&d[..i]);
